@@ -4,7 +4,8 @@ package props
 // flight on it have been answered, is CLOSED by the pool: it is neither leased, nor idle in the pool, so "closed" is the only
 // state the statement leaves for it.
 //
-//   c09-goaway  a running MOSN, bolt (multiplexed pool) and boltpp (ping-pong pool) towards a single-host cluster. k = 0..3
+//   c09-goaway  a running MOSN, bolt (multiplexed pool), boltpp (ping-pong pool) and HTTP/1.1 (the announcement is the reply's
+//               "Connection: close" field) towards a single-host cluster. k = 0..3
 //               slow requests are in flight on the upstream connection(s) when one more request is answered together with a
 //               go-away frame (after the reply, or BEFORE it); the upstream keeps answering the requests in flight and never
 //               closes the connection itself. Judged against the kernel's socket table: after everything was answered the
@@ -27,14 +28,14 @@ func init() {
 func c09GoAway(c *lab.Ctx) {
 	c.Rule("running MOSN, bolt (multiplex pool) and boltpp (ping-pong pool), single-host cluster; k=0..3 requests in flight when a further request is answered with a go-away frame (after / before its reply) by an upstream that keeps the connection open and still answers the requests in flight; kernel socket table (and pool books for the ping-pong pool) after the drain and again after a follow-up request; distinct = (protocol, k, order of go-away and reply, outcome)")
 	registerPingPong()
-	protos := []string{"bolt", "boltpp"}
+	protos := []string{"bolt", "boltpp", "Http1"}
 	// bolt: max_connections=1 gives the multiplexed pool exactly one connection slot (the pool has one slot per allowed connection),
 	// so every request shares the connection that will carry the go-away; boltpp: room for the holders' own connections
 	extra := func(name string) jmap {
 		if name == "cl-bolt-lim" {
 			return jmap{"circuit_breakers": []jmap{{"max_connections": 1, "max_requests": 1000, "max_pending_requests": 1000, "max_retries": 1000}}}
 		}
-		if name == "cl-boltpp-lim" {
+		if name == "cl-boltpp-lim" || name == "cl-Http1-lim" {
 			return jmap{"circuit_breakers": []jmap{{"max_connections": 8, "max_requests": 1000, "max_pending_requests": 1000, "max_retries": 1000}}}
 		}
 		return nil
@@ -147,7 +148,8 @@ func c09GoAwayCase(c *lab.Ctx, e *engine, proto string, k int, order string, rep
 	//     boltpp, go-away announced DURING the announcer's exchange: that connection must not go back to the pool;
 	//     boltpp, go-away announced after the reply: the connection may already be idle in the pool again when the announcement
 	//     arrives - the statement lets it stay there, only the books are judged
-	judgeConn := proto == "bolt" || order == "goawayf"
+	// HTTP/1.1: the announcement is the reply's "Connection: close" field, i.e. it always arrives during the exchange
+	judgeConn := proto == "bolt" || proto == "Http1" || order == "goawayf"
 	if proto == "bolt" && len(conns) != 1 {
 		c.Inconclusive(fmt.Sprintf("go-away %s k=%d: the requests used %d upstream connections, expected one shared connection", proto, k, len(conns)))
 		return false
@@ -177,7 +179,7 @@ func c09GoAwayCase(c *lab.Ctx, e *engine, proto string, k int, order string, rep
 			outcome += "+extra"
 		}
 	}
-	if proto == "boltpp" {
+	if proto == "boltpp" || proto == "Http1" {
 		for _, b := range c09BooksBad(e, proto, false) {
 			c.Violation("books-equal-truth-at-quiescence", "C09/goaway/books/"+proto, fmt.Sprintf("after go-away (%s, k=%d): %s", order, k, b), nil)
 			outcome += "+books"
@@ -195,6 +197,14 @@ func c09GoAwayCase(c *lab.Ctx, e *engine, proto string, k int, order string, rep
 		c.Violation("freed-capacity-available-again", "C09/goaway/cluster-unusable-afterwards/"+proto,
 			fmt.Sprintf("%s: after a drained go-away connection (%s, k=%d) the next request ended as %s/%d %s", proto, order, k, fev.Kind, fev.Status, fev.Err), nil)
 		outcome += "+followup-failed"
+	} else if proto == "Http1" {
+		for _, u := range e.log.upsFor(ftok) {
+			if u.Conn == gaConn {
+				c.Violation("no-dirty-reuse", "C09/goaway/request-on-goaway-connection/"+proto,
+					fmt.Sprintf("%s: request %s was sent on upstream connection #%d after the upstream had answered 'Connection: close' on it", proto, ftok, u.Conn), nil)
+				outcome += "+reused"
+			}
+		}
 	} else if proto == "bolt" {
 		for _, u := range e.log.upsFor(ftok) {
 			if conns[u.Conn] {
